@@ -962,6 +962,58 @@ def run(ctx):
     elif bad and not mbad:
         tie_broken += ['Gen.ModeCtx term disagrees with the implementation on %s' % json.dumps(mmeta[i]) for i in bad[:3]]
 
+    # ---- what `mode=None` means follows the default that is in force at the call (setter, context manager, exit through an
+    #      error), whatever earlier calls resolved: the result is the one of the explicit mode (fused stores extra zero blocks
+    #      when the operands' stored sectors differ, so the two routes are distinguishable)
+    try:
+        import symmray as _sr2
+        old_default = ac.get_default_tensordot_mode()
+        import gen as _gen2
+        axes_ = ((2, 3), (0, 1))
+        import random as _random
+        mrng = _random.Random(1000003 * ctx.seed + 17)      # own stream: the main one is not disturbed
+        for _try in range(400):
+            cms_ = [_gen2.rand_chargemap(mrng, 'U1', maxsize=1) for _ in range(4)]
+            dus_ = [mrng.random() < 0.5 for _ in range(4)]
+            ta = _gen2.rand_array(mrng, _sr2, 'U1', chargemaps=cms_, duals=dus_, keep=0.5, static=False)
+            tb = _gen2.rand_array(mrng, _sr2, 'U1', chargemaps=[cms_[2], cms_[3], cms_[0], cms_[1]], duals=[not dus_[2], not dus_[3], dus_[0], dus_[1]],
+                                  keep=0.5, static=False)
+            if not ta.blocks or not tb.blocks:
+                continue
+            explicit = {m_: snapj(_sr2.tensordot(ta, tb, axes=axes_, mode=m_, preserve_array=True)) for m_ in ('fused', 'blockwise')}
+            if explicit['fused'] != explicit['blockwise']:
+                break
+        trail = []
+
+        def at(default_now, label):
+            ctx.count()
+            got = snapj(_sr2.tensordot(ta, tb, axes=axes_, mode=None, preserve_array=True))
+            want = explicit['fused' if default_now in ('fused', 'auto') else 'blockwise']
+            trail.append(label)
+            if got != want:
+                found.append(('tensordot(mode=None) does not follow the default mode in force (%s)' % default_now,
+                              {'oracle': 'mode_none_history', 'history': list(trail), 'default_in_force': default_now,
+                               'distinguishable': explicit['fused'] != explicit['blockwise']}))
+        ac.set_default_tensordot_mode('blockwise'); at('blockwise', 'set blockwise')
+        with ac.default_tensordot_mode('fused'):
+            at('fused', 'with fused')
+        at('blockwise', 'after with')
+        try:
+            with ac.default_tensordot_mode('fused'):
+                at('fused', 'with fused (raising body)')
+                raise ZeroDivisionError
+        except ZeroDivisionError:
+            pass
+        at('blockwise', 'after raising with')
+        ac.set_default_tensordot_mode('fused'); at('fused', 'set fused')
+        ac.set_default_tensordot_mode(old_default)
+        ctx.extra['mode_none_distinguishable'] = explicit['fused'] != explicit['blockwise']
+    except Exception as e:
+        ctx.note('mode=None stream: %s: %s' % (type(e).__name__, e))
+        try:
+            ac.set_default_tensordot_mode(old_default)
+        except Exception:
+            pass
     # ---- threads: the Coq witness schedule imposed on the real code
     f9 = forced_f9(ac)
     ctx.extra['forced_schedule'] = f9
